@@ -86,6 +86,17 @@ func GenRunCfg(r *Rng, capDivs []int) RunCfg {
 type Violation struct {
 	Signature string `json:"signature"` // failing input class / call site / history shape
 	Detail    string `json:"detail"`
+	// Class (optional) is the coarser violation class used while minimising:
+	// a candidate reproduces when its Class matches, the reported Signature is
+	// the one of the minimised case. Empty = Signature.
+	Class string `json:"class,omitempty"`
+}
+
+func (v *Violation) class() string {
+	if v.Class != "" {
+		return v.Class
+	}
+	return v.Signature
 }
 
 // Outcome of executing one case.
@@ -136,7 +147,11 @@ type Exec struct {
 	Stats    Stats
 	WorkDir  string
 	Replay   bool
-	bubbleNo int
+	// Shrinking is set while candidates are evaluated by the minimiser:
+	// scenarios may skip expensive confirmation steps there (the minimised
+	// case is executed once more with Shrinking off before it is reported).
+	Shrinking bool
+	bubbleNo  int
 }
 
 type Stats struct {
@@ -170,11 +185,24 @@ func (x *Exec) IsKnown(prop, sig string) bool {
 	return false
 }
 
+// sigMatch: '*' in a known-finding pattern matches any run of characters.
 func sigMatch(pat, sig string) bool {
-	if strings.HasSuffix(pat, "*") {
-		return strings.HasPrefix(sig, strings.TrimSuffix(pat, "*"))
+	parts := strings.Split(pat, "*")
+	if len(parts) == 1 {
+		return pat == sig
 	}
-	return pat == sig
+	if !strings.HasPrefix(sig, parts[0]) {
+		return false
+	}
+	sig = sig[len(parts[0]):]
+	for i := 1; i < len(parts)-1; i++ {
+		j := strings.Index(sig, parts[i])
+		if j < 0 {
+			return false
+		}
+		sig = sig[j+len(parts[i]):]
+	}
+	return strings.HasSuffix(sig, parts[len(parts)-1])
 }
 
 // BubbleResult is what the scheduler observed in one bubble.
@@ -402,8 +430,8 @@ func pickScenario(prop string, seed uint64) *Scenario {
 	return ss[0]
 }
 
-func execCase(t *testing.T, sc *Scenario, w interface{}, known []KnownFinding, workDir string, replay bool) (*Outcome, *Exec) {
-	x := &Exec{T: t, Known: known, WorkDir: workDir, Replay: replay}
+func execCase(t *testing.T, sc *Scenario, w interface{}, known []KnownFinding, workDir string, replay bool, shrinking ...bool) (*Outcome, *Exec) {
+	x := &Exec{T: t, Known: known, WorkDir: workDir, Replay: replay, Shrinking: len(shrinking) > 0 && shrinking[0]}
 	o := sc.Exec(w, x)
 	if o == nil {
 		o = &Outcome{}
@@ -423,8 +451,8 @@ func minimise(t *testing.T, sc *Scenario, w interface{}, sig string, known []Kno
 			if time.Now().After(deadline) {
 				break
 			}
-			o, _ := execCase(t, sc, cand, known, workDir, true)
-			if o.Violation != nil && o.Violation.Signature == sig {
+			o, _ := execCase(t, sc, cand, known, workDir, true, true)
+			if o.Violation != nil && o.Violation.class() == sig {
 				w = cand
 				steps++
 				improved = true
@@ -518,7 +546,7 @@ func workerMain(t *testing.T) {
 	sum := &WorkerSummary{Inconclusive: map[string]int{}, Counters: map[string]int{}, Probes: map[string]int{}, ByScenario: map[string]int{}, ByPolicy: map[string]int{}, KnownHits: map[string]int{}}
 	fps := map[uint64]struct{}{}
 	ils := map[uint64]struct{}{}
-	seenSig := map[string]bool{}
+	seenSig := map[string]int{}
 	realSet, stubSet := map[string]bool{}, map[string]bool{}
 	for i := 0; i < count; i++ {
 		if time.Since(t0) > budget {
@@ -583,28 +611,40 @@ func workerMain(t *testing.T) {
 			}
 		}
 		if o.Violation != nil {
-			sig := o.Violation.Signature
+			cls := o.Violation.class()
 			isKnown := false
+			for _, k := range known {
+				if k.Status == "known" && k.Property == prop && sigMatch(k.Signature, o.Violation.Signature) {
+					isKnown = true
+				}
+			}
+			if seenSig[cls] >= 3 || seenSig[o.Violation.Signature] >= 1 { // a few replays per class and worker, one per signature
+				sum.Counters["violations_duplicate_class"]++
+				continue
+			}
+			seenSig[cls]++
+			mw, steps := w, 0
+			if !isKnown || os.Getenv("VSIM_MIN_KNOWN") != "" {
+				mw, steps = minimise(t, sc, clone(sc, w), cls, known, workDir, time.Now().Add(time.Duration(envInt("VSIM_MIN_S", 20))*time.Second))
+			}
+			// confirm the (minimised) case once more, keep the original otherwise
+			o2, x2 := execCase(t, sc, clone(sc, mw), known, workDir, true)
+			minimised := steps > 0
+			if o2.Violation == nil || o2.Violation.class() != cls {
+				mw, minimised, o2, x2 = w, false, o, x
+			}
+			sig := o2.Violation.Signature
+			isKnown = false
 			for _, k := range known {
 				if k.Status == "known" && k.Property == prop && sigMatch(k.Signature, sig) {
 					isKnown = true
 				}
 			}
-			if seenSig[sig] { // one replay per signature and worker
+			if seenSig[sig] >= 1 && sig != cls {
 				sum.Counters["violations_duplicate_signature"]++
 				continue
 			}
-			seenSig[sig] = true
-			mw, steps := w, 0
-			if !isKnown || os.Getenv("VSIM_MIN_KNOWN") != "" {
-				mw, steps = minimise(t, sc, clone(sc, w), sig, known, workDir, time.Now().Add(time.Duration(envInt("VSIM_MIN_S", 20))*time.Second))
-			}
-			// confirm the (minimised) case once more, keep the original otherwise
-			o2, x2 := execCase(t, sc, clone(sc, mw), known, workDir, true)
-			minimised := steps > 0
-			if o2.Violation == nil || o2.Violation.Signature != sig {
-				mw, minimised, o2, x2 = w, false, o, x
-			}
+			seenSig[sig]++
 			wb, _ := json.Marshal(mw)
 			rf := ReplayFile{Property: prop, Scenario: sc.Name, Seed: seed, Signature: sig, Detail: o2.Violation.Detail, Workload: wb, Minimised: minimised, Shrinks: steps, TraceHash: fmt.Sprintf("%016x", x2.Stats.TraceHash), Tier: tier}
 			name := fmt.Sprintf("%s/%s-%d-%08x.json", replayDir, prop, seed, uint32(hash64([]byte(sig))))
